@@ -351,6 +351,9 @@ def explore(res, scen_factory, judge, tag, mode, budget, seed, kind, p_switch=0.
 
     def account(S, out):
         res.count(kind)
+        res.count("scheduling_points_passed", S.n_points)
+        res.count("actor_switches", S.switches)
+        res.count("scheduler_decisions", len(S.decisions))
         if out is None:
             return
         issues, case, outcome, nontrivial = out
